@@ -300,7 +300,10 @@ def finish(ctx, failing, corr_breaks, coverage, assumptions):
     rc = 0
     known = {}
     nviol = 0
+    listed = set(x['id'] for x in findings_for(ctx.prop))
     for f in failing:
+        if f.get('finding') and f['finding'] not in listed:
+            f['finding'] = None        # only findings listed in known-findings.json are suppressed
         if f.get('finding'):
             known.setdefault(f['finding'], f)
         else:
